@@ -165,7 +165,7 @@ def stop_rules(S, d, lmin, lmax, version, boundary, out_len, norm, ref_kind, cap
 BOUNDS = {
     'quick': {'strategy': 'dimension-wise, d=2, (lmin,lmax)=(1,2), version 6', 'cap on min/max_evaluations': 27, 'refinement decisions': 'one of the first 2 intervals per round (solver choice)',
               'reference': ['none', 'concrete non-zero (2, -0.5)', 'zero'], 'norms': ['inf', 1], 'output length': [1, 2], 'boundary': [True, False]},
-    'thorough': {'strategy': 'dimension-wise, d=2, (lmin,lmax)=(1,2) and (1,3), versions 6 and 3', 'cap on min/max_evaluations': 33, 'refinement decisions': 'one of the first 3 intervals per round (solver choice)',
+    'thorough': {'strategy': 'dimension-wise, d=2, (lmin,lmax)=(1,2) and (1,3), versions 6 and 3', 'cap on min/max_evaluations': 33, 'refinement decisions': 'one of the first 2 intervals per round (solver choice)',
                  'reference': ['none', 'concrete non-zero (2, -0.5)', 'zero'], 'norms': ['inf', 1], 'output length': [1, 2], 'boundary': [True, False]},
 }
 
@@ -193,7 +193,7 @@ def jobs(tier):
     js = []
     q = tier == 'quick'
     cap = 27 if q else 33
-    pool = 2 if q else 3
+    pool = 2  # three candidates per round (tried for the thorough tier) make one job cost 500-2000 s: the tier did not end within 45 minutes
     cfgs = []
     for boundary in (True, False):
         for ref_kind in ('none', 'sym', 'zero', 'tiny'):
